@@ -337,8 +337,14 @@ def check_gaussian(gauss, y, gamma, covariance_type):
             diff = y[idx] - mu
             if covariance_type == 'full':
                 C = np.zeros((D, D))
-                for n in range(diff.shape[0]):
-                    C += g[n] * np.outer(diff[n], diff[n])
+                if diff.shape[0] <= 20000:
+                    for n in range(diff.shape[0]):
+                        C += g[n] * np.outer(diff[n], diff[n])
+                else:
+                    # very long signals: the same sum, blockwise in float64
+                    for i in range(D):
+                        for j in range(D):
+                            C[i, j] = float(np.sum(g * diff[:, i] * diff[:, j]))
                 C /= s
             elif covariance_type == 'diagonal':
                 C = (g[:, None] * diff ** 2).sum(0) / s
